@@ -445,6 +445,17 @@ def extra_instances(ctx):
             D(*batch, 3, 2), g("Toeplitz", batch=batch, m=3)]}, "r": D(*batch, 5, 2)}))
         out.append(("x|BlockDiag(Cat-batch)|%s" % batch, {"cls": "BlockDiag", "block_dim": -3, "base": {
             "cls": "Cat", "dim": -3, "ops": [D(*batch, 1, 2, 2), g("Toeplitz", batch=batch + [2], m=2)]}}))
+    # parameters / children whose batch shape differs from the operator's batch shape
+    out.append(("x|BatchRepeat([3]->[2,3])", {"cls": "BatchRepeat", "base": D(3, 2, 3), "rep": [2, 1]}))
+    out.append(("x|BatchRepeat([2]->[4])", {"cls": "BatchRepeat", "base": g("Toeplitz", batch=[2], m=3), "rep": [2]}))
+    out.append(("x|BatchRepeat([]->[2,2])", {"cls": "BatchRepeat", "base": D(3, 2), "rep": [2, 2]}))
+    out.append(("x|BatchRepeat([1,3]->[2,3])", {"cls": "BatchRepeat", "base": D(1, 3, 2, 2), "rep": [2, 1]}))
+    out.append(("x|ConstantMul(c[2])|[2]", {"cls": "ConstantMul", "base": D(2, 3, 4), "c": ob.rand_t(rng, [2], 1, 3)}))
+    out.append(("x|ConstantMul(c[2] on [2,2])", {"cls": "ConstantMul", "base": D(2, 2, 3, 2), "c": ob.rand_t(rng, [2], 1, 3)}))
+    out.append(("x|ConstantMul(c[2,3])|[2,3]", {"cls": "ConstantMul", "base": g("Toeplitz", batch=[2, 3], m=2),
+                "c": ob.rand_t(rng, [2, 3], 1, 3)}))
+    out.append(("x|Matmul([],[2])", {"cls": "Matmul", "l": D(3, 2), "r": D(2, 2, 4)}))
+    out.append(("x|Matmul([2,1],[3])", {"cls": "Matmul", "l": D(2, 1, 2, 3), "r": g("Toeplitz", batch=[3], m=3)}))
     out.append(("x|Cat0-structured|[3]", {"cls": "Cat", "dim": 0, "ops": [
         g("Toeplitz", batch=[2], m=3), D(1, 3, 3), g("Diag", batch=[1], m=3)]}))
     out.append(("x|Cat0-structured|[3,2]", {"cls": "Cat", "dim": 0, "ops": [
